@@ -53,3 +53,12 @@ Example C07_example_roundtrip :
   = Ok [IConstLoad 0 0; IBinOp 1234567890123 2 0 1; IVarArg 77 3 [0;1;2]].
 Proof. vm_compute. reflexivity. Qed.
 Print Assumptions C07_example_roundtrip.
+
+(* Any non-zero corruption confined to at most 4 consecutive bytes (independent of bit-order convention). *)
+Theorem C07_crc_burst_bytes : forall (payload : list N) (a : nat) (m : list N) (z : nat),
+  (a + length m + z = length payload + 4)%nat ->
+  (1 <= length m <= 4)%nat ->
+  (exists b, In b m /\ (b < 256)%N /\ b <> 0%N) ->
+  verify (xor_bytes (payload ++ trailer payload) (repeat 0%N a ++ m ++ repeat 0%N z)) = false.
+Proof. exact crc_burst_bytes. Qed.
+Print Assumptions C07_crc_burst_bytes.
